@@ -145,7 +145,7 @@ def run_case(cfg, W, g, comm, cp, hist, choices=(), bound=None):
 
     r = sim.explore(W, fn, bound, chk, max_execs=20000)
     if not r["complete"]:
-        allmsgs.append(f"{what}: HARNESS: schedule exploration capped at 20000 executions")
+        raise sim.HarnessError(f"{what}: schedule exploration capped at 20000 executions")
     if len(r["outcomes"]) > 1 and not allmsgs:
         allmsgs.append(f"{what}: {len(r['outcomes'])} different outcomes over the explored schedules (result depends on timing)")
     return allmsgs, set(r["outcomes"]), nexec, npoints, 0, bad_choice
